@@ -60,6 +60,18 @@ pub fn key_pool(fresh: usize) -> Vec<KeyInfo> {
     v
 }
 
+/// The pool plus an RSA key of another supported modulus size (3072 bits); kept out of `key_pool`
+/// because signing with it is slow.  (ring signs with 2048-4096 bit keys only; the 8192-bit upper bound
+/// of the verification algorithms is covered by the public-only fixture `rsa-8192.spki.der` in C12.)
+pub fn key_pool_all_sizes(fresh: usize) -> Vec<KeyInfo> {
+    let d = keys_dir();
+    let rd = |n: &str| std::fs::read(d.join(n)).unwrap();
+    let mut v = key_pool(fresh);
+    v.push(KeyInfo::load("rsa3072-pss256", rd("rsa-3072.pk8.der"), SignatureScheme::RsaSsaPssSha256));
+    v.push(KeyInfo::load("rsa3072-pss512", rd("rsa-3072.pk8.der"), SignatureScheme::RsaSsaPssSha512));
+    v
+}
+
 pub fn gen_path(r: &mut Rng) -> String {
     match r.below(8) {
         0..=3 => r.pick(&["foo", "bar", "foo.py", "sub/foo", "dst/foo", "a/b/c.txt", "foo.tar.gz", "demo-project/foo.py", ".hidden", "with space"]).to_string(),
